@@ -287,7 +287,63 @@ self.0 = c.0;
 //@END
 
 } //@
+// parity of a 4-limb value is the parity of its low limb; replacing the low limb changes the value by the difference
+pub proof fn lemma_low_limb(s: Seq<u64>, d: Seq<u64>) //@
+    requires s.len() == 4, d =~= s.update(0, d[0]), //@
+    ensures pre(s, 4) % 2 == s[0] as nat % 2, //@
+            pre(d, 4) as int == pre(s, 4) as int + d[0] as int - s[0] as int, //@
+{ //@
+    lemma_pw_values(); reveal_with_fuel(pre, 5); //@
+    let (s0, s1, s2, s3) = (s[0] as nat, s[1] as nat, s[2] as nat, s[3] as nat); //@
+    assert(s[0] as nat * pw(0) == s0); //@
+    assert(d[0] as nat * pw(0) == d[0] as nat); //@
+    assert(pre(s, 4) == s0 + s1 * pw(1) + s2 * pw(2) + s3 * pw(3)); //@
+    assert(pre(d, 4) == d[0] as nat + s1 * pw(1) + s2 * pw(2) + s3 * pw(3)); //@
+    let h = s1 * 0x8000_0000_0000_0000nat + s2 * 0x8000_0000_0000_0000_0000_0000_0000_0000nat + s3 * 0x8000_0000_0000_0000_0000_0000_0000_0000_0000_0000_0000_0000nat; //@
+    assert(s1 * pw(1) + s2 * pw(2) + s3 * pw(3) == 2 * h) by(nonlinear_arith) //@
+        requires pw(1) == 0x1_0000_0000_0000_0000nat, pw(2) == 0x1_0000_0000_0000_0000_0000_0000_0000_0000nat, //@
+                 pw(3) == 0x1_0000_0000_0000_0000_0000_0000_0000_0000_0000_0000_0000_0000nat, //@
+                 h == s1 * 0x8000_0000_0000_0000nat + s2 * 0x8000_0000_0000_0000_0000_0000_0000_0000nat + s3 * 0x8000_0000_0000_0000_0000_0000_0000_0000_0000_0000_0000_0000nat; //@
+    lemma_mod_multiples_vanish(h as int, s0 as int, 2); //@
+    assert((2 * h + s0) % 2 == s0 % 2); //@
+} //@
+
+// halving on the value:  2 * val(r) = val(x)  when  2 * r = x (+ q)
+pub proof fn lemma_div2_val(r: nat, x: nat) //@
+    requires r < QN(), 2 * r == x || 2 * r == x + QN(), //@
+    ensures (2 * ((r * RINV()) % QN())) % QN() == (x * RINV()) % QN(), //@
+{ //@
+    lemma_consts(); //@
+    let q = QN() as int; let ri = RINV() as int; let ri_ = r as int; let xi = x as int; //@
+    lemma_mul_mod_noop_right(2, ri_ * ri, q); //@
+    assert(2 * (ri_ * ri) == (2 * ri_) * ri) by(nonlinear_arith); //@
+    if 2 * r == x + QN() { //@
+        assert((xi + q) * ri == xi * ri + ri * q) by(nonlinear_arith); //@
+        lemma_mod_multiples_vanish(ri, xi * ri, q); //@
+        assert(ri * q + xi * ri == xi * ri + ri * q); //@
+    } //@
+} //@
+pub open spec fn valn(r: nat) -> nat { (r * RINV()) % QN() } //@
 impl Fq { //@
+
+//@BEGIN fq_div2
+pub fn div2(self) -> (res: Self) //@RET Self
+    requires wf(self), //@
+    ensures wf(res), (2 * valn(U(res.0))) % QN() == val(self), valn(U(res.0)) == val(res), //@
+{
+proof { //@
+    lemma_consts(); //@
+    assert(QN() % 2 == 1) by { lemma_consts_gen(); lemma_low_limb(FQ_C@, FQ_C@); } //@
+    lemma_mod_bound((U(self.0) * RINV()) as int, QN() as int); //@
+    lemma_small_mod(val(self), QN()); //@
+    assert forall|r: nat| r < QN() && (2 * r == U(self.0) || 2 * r == U(self.0) + QN()) implies (2 * #[trigger] valn(r)) % QN() == val(self) by { //@
+        lemma_div2_val(r, U(self.0)); //@
+    } //@
+} //@
+let mut s_ = self; s_.0.div2(&U256(B256(FQ_C))); s_
+}
+//@END
+
 
 //@BEGIN fq_is_zero
 pub fn is_zero(&self) -> (res: bool) //@RET bool
